@@ -552,4 +552,11 @@ def targeted_cases(rng, n):
         for nm in (b"/f%03d.txt" % (10 * k + 8), b"/f%03d.txt" % (10 * k + 8), b"/f059.txt", b"/f059.txt", b"/f000.txt", b"/f%03d.txt" % (10 * k + 9)): sc.op("chm_find", "h0", nm.hex())
         sc.op("chm_close", "h0")
         out.append(Case("hostile:chm-cut-chunk-refind", "chm", sc))
+    # (11) well-formed Quantum folders with a window smaller than the frame: matches straddle the window end while members are extracted and skipped
+    for i in range(max(3, n // 2)):
+        wb = [10, 11, 10, 12, 13][i % 5]
+        fo = cabfmt.Folder(("qtm", wb), [cabfmt.Member(b"w%d.bin" % j, length=[3000, 5000, 7000][j]) for j in range(3)])
+        cab = cabfmt.build_single([fo], rng, with_ck=True)
+        sc = scenario.Scn().file("in0.cab", cab).op("cab_new").op("cab_open", "c0", "in0.cab").op("cab_extract_all", "c0", "out", 3).op("cab_extract_all", "c0", "outr", 3, 1).op("cab_close", "c0")
+        out.append(Case("gen:qtm-small-window", "cab", sc))
     return out
